@@ -449,12 +449,9 @@ def createSnapshot (db : Db) (now : Time) (name subName : String) (labels : StrM
         match minPub opens with
         | none => (now, [])
         | some t0 =>
-          -- messages of the subscription's topic published at or after t0 that have a completed
-          -- delivery on this subscription (the LEFT JOIN's `subscription_id = sub` conjunct
-          -- removes the "no delivery" rows)
-          (t0, (db.msgs.filter fun m => m.topicId == s.topicId && decide (t0 ≤ m.publishedAt)).flatMap
-            fun m => (db.dels.filter fun d => d.msgId == m.id && d.subId == s.id && d.completedAt.isSome).map
-              fun _ => m.id)
+          -- message ids of the completed deliveries of this subscription at or after t0
+          (t0, (db.dels.filter fun d =>
+              d.subId == s.id && decide (t0 ≤ d.publishedAt) && d.completedAt.isSome).map (·.msgId))
       let sn : Snapshot := { id := newId, topicId := s.topicId, name := name, createdAt := now,
                              expiresAt := now + Extracted.defaultSnapshotTTL, labels := labels,
                              ackedBefore := before, ackedIds := ids }
@@ -498,36 +495,69 @@ structure CreateSubParams where
   dlTopic     : String
 deriving Repr, Inhabited
 
+/-- a filter string `CreateSubscription` / `UpdateSubscription` accept: empty, or parsing -/
+def filterOk (f : String) : Bool :=
+  f == "" || (match Filter.parse f with | .ok _ => true | _ => false)
+
+/-- the dead-letter topic named in the request, if any, must be live -/
+def resolveDl (db : Db) (name : String) : Except Err (Option Id) :=
+  if name == "" then .ok none
+  else match db.liveTopicByName name with
+    | none => .error .notFound
+    | some dt => .ok (some dt.id)
+
+/-- the row `CreateSubscription` inserts -/
+def mkSub (now : Time) (p : CreateSubParams) (newId : Id) (topicId : Id) (dlId : Option Id) : Sub :=
+  { id := newId, topicId := topicId, name := p.name, createdAt := now, expiresAt := now + p.ttl,
+    deletedAt := none, ttl := p.ttl, messageTtl := p.messageTtl, ordered := p.ordered,
+    labels := p.labels,
+    minBackoff := if 0 < p.minBackoff then some p.minBackoff else none,
+    maxBackoff := if 0 < p.maxBackoff then some p.maxBackoff else none,
+    pushEndpoint := if p.pushEndpoint == "" then none else some p.pushEndpoint,
+    filter := if p.filter == "" then none else some p.filter,
+    maxAttempts := if p.maxAttempts != 0 then some p.maxAttempts else none,
+    dlTopicId := dlId, deliveryDelay := 0 }
+
 /-- `CreateSubscription.Execute` (constructor preconditions are the API layer's business) -/
 def createSub (db : Db) (now : Time) (p : CreateSubParams) (newId : Id) : Except Err (TxOut Id) :=
   if (db.liveSubByName p.name).isSome then .error .exists
   else match db.liveTopicByName p.topicName with
   | none => .error .notFound
   | some t =>
-    let filterOk : Bool := p.filter == "" || (match Filter.parse p.filter with | .ok _ => true | _ => false)
-    if !filterOk then .error (.invalid "filter")
-    else
-      let dl : Except Err (Option Id) :=
-        if p.dlTopic == "" then .ok none
-        else match db.liveTopicByName p.dlTopic with
-          | none => .error .notFound
-          | some dt => .ok (some dt.id)
-      match dl with
+    if !filterOk p.filter then .error (.invalid "filter")
+    else match resolveDl db p.dlTopic with
       | .error e => .error e
       | .ok dlId =>
         if db.allIds.contains newId then badObs "subscription id not fresh"
         else
-          let s : Sub := {
-            id := newId, topicId := t.id, name := p.name, createdAt := now, expiresAt := now + p.ttl,
-            deletedAt := none, ttl := p.ttl, messageTtl := p.messageTtl, ordered := p.ordered,
-            labels := p.labels,
-            minBackoff := if 0 < p.minBackoff then some p.minBackoff else none,
-            maxBackoff := if 0 < p.maxBackoff then some p.maxBackoff else none,
-            pushEndpoint := if p.pushEndpoint == "" then none else some p.pushEndpoint,
-            filter := if p.filter == "" then none else some p.filter,
-            maxAttempts := if p.maxAttempts != 0 then some p.maxAttempts else none,
-            dlTopicId := dlId, deliveryDelay := 0 }
-          .ok { db := { db with subs := db.subs ++ [s] }, wakes := [newId], val := newId }
+          .ok { db := { db with subs := db.subs ++ [mkSub now p newId t.id dlId] },
+                wakes := [newId], val := newId }
+
+/-- what a successful `createSub` did -/
+theorem createSub_ok {db : Db} {now : Time} {p : CreateSubParams} {newId : Id} {o : TxOut Id}
+    (h : createSub db now p newId = .ok o) :
+    ∃ t dlId, db.liveTopicByName p.topicName = some t ∧ filterOk p.filter = true ∧
+      (db.liveSubByName p.name).isSome = false ∧ db.allIds.contains newId = false ∧
+      o.db = { db with subs := db.subs ++ [mkSub now p newId t.id dlId] } ∧ o.wakes = [newId] := by
+  unfold createSub at h
+  split at h
+  · cases h
+  · rename_i hex
+    split at h
+    · cases h
+    · rename_i t ht
+      split at h
+      · cases h
+      · rename_i hf
+        split at h
+        · cases h
+        · rename_i dlId _
+          split at h
+          · cases h
+          · rename_i hfresh
+            injection h with h
+            subst h
+            exact ⟨t, dlId, ht, by simpa using hf, by simpa using hex, by simpa using hfresh, rfl, rfl⟩
 
 def deleteSub (db : Db) (now : Time) (name : String) : Except Err (TxOut Nat) :=
   let p : Sub → Bool := fun s => s.name == name && s.live
